@@ -762,3 +762,67 @@ pub fn build(v: &MVal) -> Option<CVal> {
         _ => return None,
     })
 }
+
+// ---------------------------------------------------------------------------------------------
+// probe of the crate's typed-entry emission order (see model::Orders)
+
+fn key_order(bytes: &[u8], typed: &[i64]) -> Option<Vec<i64>> {
+    match crate::rcbor::decode(bytes).ok()? {
+        Item::Map(m) => {
+            let mut out = Vec::new();
+            for (k, _) in m {
+                if let Item::Int(i) = k {
+                    if typed.contains(&(i as i64)) && !out.contains(&(i as i64)) {
+                        out.push(i as i64);
+                    }
+                }
+            }
+            if out.len() == typed.len() {
+                Some(out)
+            } else {
+                None
+            }
+        }
+        _ => None,
+    }
+}
+
+/// Encode one fully populated header / key / claims set and read off the order of the typed
+/// labels.  IV and Partial IV cannot both be present in a well-formed header, so two probes are
+/// merged.  Any failure leaves the natural order in place (the checks will then report whatever
+/// is wrong through their own oracles).
+pub fn probe_orders() {
+    if ORDERS.get().is_some() {
+        return;
+    }
+    let natural = Orders { header: vec![1, 2, 3, 4, 5, 6, 7], key: vec![1, 2, 3, 4, 5], claims: vec![1, 2, 3, 4, 5, 6, 7] };
+    let mut h = MHeader::default();
+    h.alg = Some(MLabel::Int(-7));
+    h.crit = vec![MLabel::Int(4)];
+    h.ct = Some(MLabel::Int(60));
+    h.kid = vec![1];
+    h.iv = vec![2];
+    h.csigs = vec![MSignature::default()];
+    let mut h2 = h.clone();
+    h2.iv = vec![];
+    h2.piv = vec![3];
+    let enc = |h: &MHeader| b_header(h).and_then(|c| to_vec(CVal::Header(c)).ok());
+    let header = (|| {
+        let a = key_order(&enc(&h)?, &[1, 2, 3, 4, 5, 7])?;
+        let b = key_order(&enc(&h2)?, &[1, 2, 3, 4, 6, 7])?;
+        // merge: insert 6 into a at the position it has in b relative to its predecessor
+        let pos6 = b.iter().position(|x| *x == 6)?;
+        let mut out = a.clone();
+        let at = if pos6 == 0 { 0 } else { out.iter().position(|x| *x == b[pos6 - 1]).map(|p| p + 1).unwrap_or(out.len()) };
+        // keep 5 before 6 when they are neighbours in the natural order
+        let at = if out.get(at) == Some(&5) { at + 1 } else { at };
+        out.insert(at, 6);
+        Some(out)
+    })()
+    .unwrap_or_else(|| natural.header.clone());
+    let k = MKey { kty: MLabel::Int(2), kid: vec![1], alg: Some(MLabel::Int(-7)), key_ops: vec![MLabel::Int(1)], base_iv: vec![2], params: vec![] };
+    let key = b_key(&k).and_then(|c| to_vec(CVal::Key(c)).ok()).and_then(|b| key_order(&b, &[1, 2, 3, 4, 5])).unwrap_or_else(|| natural.key.clone());
+    let c = MClaims { iss: Some("i".into()), sub: Some("s".into()), aud: Some("a".into()), exp: Some(MTime::Int(1)), nbf: Some(MTime::Int(2)), iat: Some(MTime::Int(3)), cti: Some(vec![1]), rest: vec![] };
+    let claims = to_vec(CVal::Claims(b_claims(&c))).ok().and_then(|b| key_order(&b, &[1, 2, 3, 4, 5, 6, 7])).unwrap_or_else(|| natural.claims.clone());
+    let _ = ORDERS.set(Orders { header, key, claims });
+}
